@@ -87,8 +87,9 @@ CHECKS = {
     },
     "C13": {
         "level": "exploration",
+        "needs_cli": True,
         "rule": "exhaustive: every violation class (out-of-order starts, overlap, start>end, beyond chromosome, unknown chromosome, chromosome order, non-contiguous chromosome, 8-10 malformed-line shapes, empty input) injected at every position (chromosome first/middle/last x item first/middle/last) of a valid 3x3 input x {bigWig, bigBed} x {iterator, serial text, parallel file} x {single, two-pass} x runtimes; plus valid degenerate inputs (zero-length only, single item, a source yielding no values). Each write runs under catch_unwind and a wall-clock watchdog. Oracle: invalid -> Err value (not Ok, not panic, not hang); valid -> returns without panic or hang. non-trivial = every case (each is a distinct injection)",
-        "require": ["invalid_refused", "valid_returned_ok"],
+        "require": ["invalid_refused", "valid_returned_ok", "tool_refusal_runs", "tool_valid_ok"],
         "assumptions": E1_ASSUME + ["hang verdicts are wall-clock caps (15 s where a case takes < 5 ms)"],
     },
     "C14": {
@@ -109,9 +110,10 @@ CHECKS = {
     },
     "C19": {
         "level": "exploration",
+        "needs_cli": True,
         "mem_gb": 2,
         "rule": "exhaustive: generated schema for every extra-column count 0..40 (declared fields counted independently, parsed, written and read back); supplied schemas stored verbatim with their declared field count; every schema of a grammar-based generator (all field forms x declaration types, 1-3 fields, 1-3 declarations) must parse with the generated counts; every character truncation and every single-token mutation of a schema core; every string up to a length bound over the delimiter alphabet with keyword prefixes/suffixes. Each parse runs under catch_unwind inside a worker with a 2 GB address-space cap and a wall cap (hang / unbounded growth = failure). non-trivial = every block",
-        "require": ["parses", "parses_ok", "parses_err", "schema_roundtrips", "grammar_schemas", "truncations", "token_mutations", "short_strings"],
+        "require": ["parses", "parses_ok", "parses_err", "schema_roundtrips", "grammar_schemas", "truncations", "token_mutations", "short_strings", "tool_schema_runs"],
         "assumptions": E1_ASSUME + ["hang / unbounded growth verdicts are a 30 s wall cap and a 2 GB address-space cap per block of parses (a parse normally takes microseconds)"],
     },
     "C15": {
